@@ -60,6 +60,11 @@ AddNoiseFromObs(kind, share, tables) ==
     /\ UNCHANGED <<geo, own, bg, xown, xbg>>
     /\ Log([name |-> "AddNoiseFromObs", kind |-> kind, share |-> share, tables |-> tables])
 
+(* tables of different lengths with a shared index: refused (IndexError), nothing changes -- data, estimates, generator *)
+AddNoiseFromObsRefused(which) ==
+    /\ Active /\ UNCHANGED <<geo, est, content, own, bg, xown, xbg>>
+    /\ Log([name |-> "AddNoiseFromObsRefused", which |-> which])
+
 ZeroData == /\ Active /\ est' = <<"zero">> /\ content' = "empty" /\ UNCHANGED <<geo, own, bg, xown, xbg>> /\ Log([name |-> "ZeroData"])
 AddSignal == /\ Active /\ est' = est /\ content' = (IF content = "empty" THEN "mixed" ELSE content)
              /\ UNCHANGED <<geo, own, bg, xown, xbg>> /\ Log([name |-> "AddSignal"])
@@ -93,6 +98,7 @@ Done == /\ EmitOn /\ Len(hist) = MaxOps /\ PrintT(ToJson([geo |-> geo, k |-> KSe
 Next == \/ Done
         \/ \E kind \in Kinds, m \in Means, s \in Stds : AddNoise(kind, m, s)
         \/ \E kind \in Kinds, share \in BOOLEAN, tables \in {"user", "default"} : AddNoiseFromObs(kind, share, tables)
+        \/ \E which \in {"std_longer", "min_longer", "min_shorter"} : AddNoiseFromObsRefused(which)
         \/ ZeroData \/ AddSignal \/ QuerySnr
         \/ \E a \in 1..2, p \in 1..2, s \in {3, 4, 12} : StreamAddNoise(a, p, s)
         \/ \E p \in 1..2, s \in {3, 4, 5} : BgAddNoise(p, s)
@@ -108,7 +114,7 @@ FirstNoiseSetsParams ==
 LaterNoiseReestimates ==
     [][(hist' # hist /\ hist'[Len(hist')].act.name \in {"AddNoise", "AddNoiseFromObs"} /\ est # <<"zero">>) => est' = <<"estimated">>]_vars
 ZeroDataResets == [][(hist' # hist /\ hist'[Len(hist')].act.name = "ZeroData") => est' = <<"zero">>]_vars
-SignalLeavesEstimate == [][(hist' # hist /\ hist'[Len(hist')].act.name \in {"AddSignal", "QuerySnr"}) => est' = est]_vars
+SignalLeavesEstimate == [][(hist' # hist /\ hist'[Len(hist')].act.name \in {"AddSignal", "QuerySnr", "AddNoiseFromObsRefused"}) => est' = est]_vars
 (* variances add: the total of a stream is its own plus the shared background of its polarisation, for every antenna alike *)
 QuadratureSum == \A p \in 1..2 : \A a, b \in 1..2 : (own[a][p] + bg[p]) - (own[b][p] + bg[p]) = own[a][p] - own[b][p]
 (* the realised variance of a stream (booked + not yet booked) only ever grows by the variance of what was added;
